@@ -54,12 +54,12 @@ def strings(name: str) -> list[str]:
     return _cache[name]
 
 
-def shape_of(term: str) -> tuple[int, ...]:
+def shape_of(term: str, ell: tuple[int, ...] = ELL) -> tuple[int, ...]:
     out: list[int] = []
     i = 0
     while i < len(term):
         if term.startswith('...', i):
-            out += list(ELL)
+            out += list(ell)
             i += 3
         else:
             out.append(SIZES[term[i]])
@@ -81,10 +81,11 @@ def predicate(subs: str) -> bool:
     return result.replace(f, s) == right
 
 
-def one(subs: str, rng: Any, per_leaf: bool) -> None:
+def one(subs: str, rng: Any, per_leaf: bool, ell: tuple[int, ...] = ELL, ell_blocks: tuple[int, ...] | None = None) -> None:
     left, rest = subs.split(',')
     right, result = rest.split('->')
-    bshape, xshape = shape_of(left), shape_of(right)
+    # the ellipsis of the block term may stand for fewer axes than the one of the leaf (NumPy broadcasting)
+    bshape, xshape = shape_of(left, ell if ell_blocks is None else ell_blocks), shape_of(right, ell)
     dt = np.float32
     nb = np.asarray(rng.integers(-4, 5, size=bshape), dtype=np.float64)
     nx = np.asarray(rng.integers(-4, 5, size=xshape), dtype=np.float64)
@@ -153,8 +154,16 @@ def one(subs: str, rng: Any, per_leaf: bool) -> None:
         LOG.sample({'subscripts': subs, 'transposed': t.subscripts, 'blocks': list(bshape), 'x': list(xshape), 'per_leaf': per_leaf})
 
 
+ELL2 = (3, 2)   # a second ellipsis shape: two broadcast axes, the first as long as the j axis
+
+
 def case_ij(rng: Any, ctx: Ctx, index: int) -> None:
-    one(strings('ij')[index], rng, per_leaf=bool(index % 2))
+    subs = strings('ij')[index]
+    one(subs, rng, per_leaf=bool(index % 2))
+    if '...' in subs:
+        one(subs, rng, per_leaf=not bool(index % 2), ell=ELL2)
+        if '...' in subs.split(',')[0] and '...' in subs.split(',')[1]:
+            one(subs, rng, per_leaf=bool(index % 2), ell=ELL2, ell_blocks=())
 
 
 def case_ijk(rng: Any, ctx: Ctx, index: int) -> None:
@@ -164,6 +173,10 @@ def case_ijk(rng: Any, ctx: Ctx, index: int) -> None:
         if np.random.default_rng([ctx.seed, 14, index]).random() > 0.10:
             return
     one(subs, rng, per_leaf=bool(rng.integers(2)))
+    if ctx.thorough and '...' in subs:
+        one(subs, rng, per_leaf=bool(rng.integers(2)), ell=ELL2)
+        if '...' in subs.split(',')[0] and '...' in subs.split(',')[1]:
+            one(subs, rng, per_leaf=bool(rng.integers(2)), ell=ELL2, ell_blocks=())
 
 
 def case_h(rng: Any, ctx: Ctx, index: int) -> None:
